@@ -309,6 +309,12 @@ def execute(scenario, keep_trace=False):
         bid = b.bid if b is not None else -1
         if selecting[0] > 1:
             run.probes['fund_reserved_while_other_selecting'] += 1
+        # reserving again what the build already holds (Transaction.create may reserve the pre-chosen inputs it
+        # was handed) acquires nothing; a *selection* that returns an output the build holds stays a violation
+        again = [op for op in ops if held.get(op) == bid]
+        if again:
+            run.probes['own_hold_reserved_again'] += 1
+        ops = [op for op in ops if held.get(op) != bid]
         acquired(b, ops, 'own read + reserve_outputs')
         run.ev('reserve', bid, len(ops), [op[:10] for op in ops][:6])
     sim.on_reserve_return = on_reserve_return
